@@ -1,7 +1,7 @@
 (* C12 — kwoargs / posoargs / autokwoargs: advertised signature equals call behaviour. *)
 From Coq Require Import List NArith Bool Arith Permutation.
 From Sigtools.Model Require Import Base Bind Algebra Modifiers.
-From Sigtools.Proofs Require Import Modifiers ModifiersFull.
+From Sigtools.Proofs Require Import Modifiers ModifiersFull ModifiersForms.
 
 Theorem C12_sig_partial posos kwos ps adv kp : valid_sig ps = true -> prepare ps posos kwos = Ok (adv, kp) -> adv = adv_spec posos kwos ps /\ kp = kwopos_from posos kwos 0 ps.
 Proof. exact (prepare_spec posos kwos ps adv kp). Qed.
@@ -70,4 +70,30 @@ Print Assumptions C12_auto_admissible.
 Theorem C12_sig_auto : forall (ps : list param) (ex : list name), valid_sig ps = true -> decorate ps (FAuto ex) = (if forallb (fun x : N => mem x (map pname (filter pkdef ps))) ex then match auto_sel ps ex with | [] => Ok (ps, [], []) | _ :: _ => Ok (adv_spec [] (auto_sel ps ex) ps, kwopos_from [] (auto_sel ps ex) 0 ps, []) end else Err ValueErr).
 Proof. exact @ModifiersFull.C12_sig_auto. Qed.
 Print Assumptions C12_sig_auto.
+
+
+(* ---- closed forms of the start= / end= selections (Proofs/ModifiersForms.v) ---- *)
+Theorem C12_select_start : forall (ps : list param) (s : name) (names0 : list name), valid_sig ps = true -> select ps (FStart s names0) = (if mem s (pk_names ps) then Ok ([], start_sel ps s names0) else Err ValueErr).
+Proof. exact @ModifiersForms.C12_select_start. Qed.
+Print Assumptions C12_select_start.
+
+Theorem C12_select_end : forall (ps : list param) (e : name) (names0 : list name), valid_sig ps = true -> select ps (FEnd e names0) = (if mem e (pk_names ps) then Ok (end_sel ps e names0, []) else Err ValueErr).
+Proof. exact @ModifiersForms.C12_select_end. Qed.
+Print Assumptions C12_select_end.
+
+Theorem C12_sig_start : forall (ps : list param) (s : name) (names0 : list name), valid_sig ps = true -> decorate ps (FStart s names0) = (if mem s (pk_names ps) then if ModifiersFull.admissible [] (start_sel ps s names0) ps then Ok (adv_spec [] (start_sel ps s names0) ps, kwopos_from [] (start_sel ps s names0) 0 ps, []) else Err ValueErr else Err ValueErr).
+Proof. exact @ModifiersForms.C12_sig_start. Qed.
+Print Assumptions C12_sig_start.
+
+Theorem C12_sig_end : forall (ps : list param) (e : name) (names0 : list name), valid_sig ps = true -> decorate ps (FEnd e names0) = (if mem e (pk_names ps) then if ModifiersFull.admissible (end_sel ps e names0) [] ps then Ok (adv_spec (end_sel ps e names0) [] ps, kwopos_from (end_sel ps e names0) [] 0 ps, end_sel ps e names0) else Err ValueErr else Err ValueErr).
+Proof. exact @ModifiersForms.C12_sig_end. Qed.
+Print Assumptions C12_sig_end.
+
+Theorem C12_sig_start_plain : forall (ps : list param) (s : name), valid_sig ps = true -> decorate ps (FStart s []) = (if mem s (pk_names ps) then Ok (adv_spec [] (from_name s (pk_names ps)) ps, kwopos_from [] (from_name s (pk_names ps)) 0 ps, []) else Err ValueErr).
+Proof. exact @ModifiersForms.C12_sig_start_plain. Qed.
+Print Assumptions C12_sig_start_plain.
+
+Theorem C12_sig_end_plain : forall (ps : list param) (e : name), valid_sig ps = true -> decorate ps (FEnd e []) = (if mem e (pk_names ps) then Ok (adv_spec (upto_name e (pk_names ps)) [] ps, kwopos_from (upto_name e (pk_names ps)) [] 0 ps, upto_name e (pk_names ps)) else Err ValueErr).
+Proof. exact @ModifiersForms.C12_sig_end_plain. Qed.
+Print Assumptions C12_sig_end_plain.
 
